@@ -366,7 +366,7 @@ def inject(repo=None):
     rel = 'chython/algorithms/_isomorphism.pyx'
     src = open(os.path.join(repo, rel)).read()
     py, _ = transpile(src, rel)
-    outdir = os.path.join(common.VERIF, 'build', 'pyx')
+    outdir = os.path.join(getattr(common, 'OUT', common.VERIF), 'build', 'pyx')   # a scratch-repo run writes into its own tree
     os.makedirs(outdir, exist_ok=True)
     path = os.path.join(outdir, '_isomorphism.py')
     with open(path, 'w') as f:
